@@ -98,7 +98,7 @@ def _reconstruct_url(environ, protocol=True, server_name=True, path=True,
 
     if path:
         if (quote(environ.get('SCRIPT_NAME', '')) == '/' and
-            quote(environ.get('PATH_INFO', ''))[0] == '/'):
+            quote(environ.get('PATH_INFO', ''))[0:1] == '/'):
             #skip this if it is only a slash
             pass
 
